@@ -269,6 +269,56 @@ func RuleS2(c *Ctx) {
 		}
 	}
 	show := func(q poly) string { return pc.show(q) }
+	// what the conditions along a path (optionally seen one iteration later, or at i = 0) say, and whether that can
+	// hold; a polynomial that is the remainder X - Y*(X/Y) of a division of the function is known to be >= 0
+	facts := map[string]s2Bound{}
+	boundsOf := func(p *s2Path, sub map[string]poly) []s2Bound {
+		var out []s2Bound
+		for _, cd := range p.conds {
+			b, ok := pc.condBound(cd.cond, cd.taken, sub)
+			if !ok {
+				continue
+			}
+			out = append(out, b)
+			if _, known := facts[b.key]; !known && b.key != "" {
+				// is the bounded polynomial (or its negation) never negative — a remainder X - Y*(X/Y), or zero, on
+				// every way into the loop?
+				d := pc.of(cd.cond.(*ssa.BinOp).X, 0).add(pc.of(cd.cond.(*ssa.BinOp).Y, 0), -1)
+				if sub != nil {
+					d = d.subst(sub)
+				}
+				c0 := d[""]
+				n := poly{}
+				for kk, v := range d {
+					if kk != "" {
+						n[kk] = v
+					}
+				}
+				_ = c0
+				if polyKey(n) != b.key {
+					n = poly{}.add(n, -1)
+				}
+				switch {
+				case s2NonNeg(pc, fn, cl, n):
+					facts[b.key] = s2Bound{b.key, 0, s2Inf}
+				case s2NonNeg(pc, fn, cl, poly{}.add(n, -1)):
+					facts[b.key] = s2Bound{b.key, -s2Inf, 0}
+				}
+			}
+		}
+		return out
+	}
+	{
+		var live []*s2Path
+		for _, p := range paths {
+			if s2Feasible(boundsOf(p, nil), facts) {
+				live = append(live, p)
+			}
+		}
+		if len(live) > 0 {
+			paths = live
+		}
+	}
 	// initial values of the carried variables
 	inits := map[string]poly{}
 	for _, hp := range headerPhis {
@@ -292,6 +342,9 @@ func RuleS2(c *Ctx) {
 	okFirst := true
 	var whyFirst string
 	for _, p := range paths {
+		if !s2Feasible(boundsOf(p, inits), facts) {
+			continue // this way through the body cannot be taken in the first iteration
+		}
 		if s0 := p.start.subst(inits); len(s0) != 0 {
 			okFirst = false
 			whyFirst = fmt.Sprintf("the first range starts at %s, not at 0", show(s0))
@@ -308,7 +361,10 @@ func RuleS2(c *Ctx) {
 			nx[pc.leaf(hp)] = q
 		}
 		for _, q := range paths {
-			if ns := q.start.subst(nx); !ns.eq(p.end) {
+			if !s2Feasible(append(boundsOf(p, nil), boundsOf(q, nx)...), facts) {
+				continue // q cannot be the iteration after p
+			}
+			if ns := q.start.subst(nx); !ns.eq(p.end) && !s2ZeroUnder(ns.add(p.end, -1), append(boundsOf(p, nil), boundsOf(q, nx)...), facts) {
 				okAbut = false
 				whyAbut = fmt.Sprintf("a range ends at %s but the next one starts at %s", show(p.end), show(ns))
 			}
@@ -779,4 +835,233 @@ func baseOf(v ssa.Value) ssa.Value {
 		}
 	}
 	return v
+}
+
+// ---------------------------------------------------------------------------
+// feasibility of path conditions (S2)
+//
+// A comparison of two integer polynomials, taken or not taken, bounds the non-constant part N of their difference:
+// lo <= N <= hi. Conditions over the same N (up to sign and a constant — `i > E`, `i < E`, and the same one
+// iteration later) intersect as intervals; an empty intersection means the paths cannot follow each other.
+
+const s2Inf = int64(1) << 50
+
+type s2Bound struct {
+	key    string
+	lo, hi int64
+}
+
+func polyKey(p poly) string {
+	var keys []string
+	for k := range p {
+		keys = append(keys, k)
+	}
+	sort.Strings(keys)
+	var sb strings.Builder
+	for _, k := range keys {
+		fmt.Fprintf(&sb, "%s:%d;", k, p[k])
+	}
+	return sb.String()
+}
+
+// condBound: the bound that `cond` being taken (or not) puts on a polynomial, after substitution. ok=false when the
+// condition is not a comparison of integer polynomials; a constant comparison yields key "" with an empty or full
+// interval.
+func (pc *polyCtx) condBound(cond ssa.Value, taken bool, sub map[string]poly) (s2Bound, bool) {
+	cmp, isCmp := cond.(*ssa.BinOp)
+	if !isCmp {
+		return s2Bound{}, false
+	}
+	op := cmp.Op
+	switch op {
+	case token.LSS, token.LEQ, token.GTR, token.GEQ, token.EQL, token.NEQ:
+	default:
+		return s2Bound{}, false
+	}
+	if !taken {
+		op = negateTok(op)
+	}
+	d := pc.of(cmp.X, 0).add(pc.of(cmp.Y, 0), -1)
+	if sub != nil {
+		d = d.subst(sub)
+	}
+	c := d[""]
+	n := poly{}
+	for k, v := range d {
+		if k != "" {
+			n[k] = v
+		}
+	}
+	if len(n) == 0 {
+		truth := false
+		switch op {
+		case token.LSS:
+			truth = c < 0
+		case token.LEQ:
+			truth = c <= 0
+		case token.GTR:
+			truth = c > 0
+		case token.GEQ:
+			truth = c >= 0
+		case token.EQL:
+			truth = c == 0
+		case token.NEQ:
+			truth = c != 0
+		}
+		if truth {
+			return s2Bound{"", -s2Inf, s2Inf}, true
+		}
+		return s2Bound{"", 1, 0}, true
+	}
+	// canonical sign: the first monomial in key order has a positive coefficient
+	var keys []string
+	for k := range n {
+		keys = append(keys, k)
+	}
+	sort.Strings(keys)
+	sgn := int64(1)
+	if n[keys[0]] < 0 {
+		sgn = -1
+		n = poly{}.add(n, -1)
+	}
+	b := s2Bound{polyKey(n), -s2Inf, s2Inf}
+	// sgn*N + c  op  0
+	if sgn > 0 {
+		switch op {
+		case token.GTR:
+			b.lo = -c + 1
+		case token.GEQ:
+			b.lo = -c
+		case token.LSS:
+			b.hi = -c - 1
+		case token.LEQ:
+			b.hi = -c
+		case token.EQL:
+			b.lo, b.hi = -c, -c
+		}
+	} else {
+		switch op {
+		case token.GTR:
+			b.hi = c - 1
+		case token.GEQ:
+			b.hi = c
+		case token.LSS:
+			b.lo = c + 1
+		case token.LEQ:
+			b.lo = c
+		case token.EQL:
+			b.lo, b.hi = c, c
+		}
+	}
+	return b, true
+}
+
+// s2Feasible: the bounds can hold together, given facts (known bounds per polynomial key).
+func s2Feasible(bs []s2Bound, facts map[string]s2Bound) bool {
+	_, ok := s2Meet(bs, facts)
+	return ok
+}
+
+// s2ZeroUnder: polynomial d is zero whenever the bounds hold (identically, or because its non-constant part is
+// pinned to one value by them).
+func s2ZeroUnder(d poly, bs []s2Bound, facts map[string]s2Bound) bool {
+	if len(d) == 0 {
+		return true
+	}
+	acc, ok := s2Meet(bs, facts)
+	if !ok {
+		return true
+	}
+	c := d[""]
+	n := poly{}
+	for k, v := range d {
+		if k != "" {
+			n[k] = v
+		}
+	}
+	if len(n) == 0 {
+		return c == 0
+	}
+	sgn := int64(1)
+	b, known := acc[polyKey(n)]
+	if !known {
+		sgn = -1
+		b, known = acc[polyKey(poly{}.add(n, -1))]
+	}
+	return known && b.lo == b.hi && sgn*b.lo+c == 0
+}
+
+func s2Meet(bs []s2Bound, facts map[string]s2Bound) (map[string]s2Bound, bool) {
+	acc := map[string]s2Bound{}
+	for k, f := range facts {
+		acc[k] = f
+	}
+	for _, b := range bs {
+		cur, ok := acc[b.key]
+		if !ok {
+			cur = s2Bound{b.key, -s2Inf, s2Inf}
+		}
+		if b.lo > cur.lo {
+			cur.lo = b.lo
+		}
+		if b.hi < cur.hi {
+			cur.hi = b.hi
+		}
+		if cur.lo > cur.hi {
+			return nil, false
+		}
+		acc[b.key] = cur
+	}
+	return acc, true
+}
+
+// s2NonNeg: n >= 0 on every way into the loop: with the merges in front of the loop resolved edge by edge, n is
+// identically zero or the remainder X - Y*(X/Y) of a division computed by the function.
+func s2NonNeg(pc *polyCtx, fn *ssa.Function, cl *countedLoop, n poly) bool {
+	if len(n) == 0 {
+		return true
+	}
+	var joinPhis []*ssa.Phi
+	var joinBlock *ssa.BasicBlock
+	for _, l := range pc.leaves {
+		if ph, isPhi := l.(*ssa.Phi); isPhi && !cl.loop.Blocks[ph.Block()] && n.mentions(pc.leaf(ph)) {
+			if joinBlock != nil && ph.Block() != joinBlock {
+				return false
+			}
+			joinBlock = ph.Block()
+			joinPhis = append(joinPhis, ph)
+		}
+	}
+	nConf := 1
+	if joinBlock != nil {
+		nConf = len(joinBlock.Preds)
+	}
+	for k := 0; k < nConf; k++ {
+		sub := map[string]poly{}
+		for _, ph := range joinPhis {
+			sub[pc.leaf(ph)] = pc.of(ph.Edges[k], 0)
+		}
+		nk := n.subst(sub)
+		if len(nk) == 0 {
+			continue
+		}
+		if c, isC := nk.constant(); isC && c >= 0 {
+			continue
+		}
+		rem := false
+		core.AllInstrs(fn, func(in ssa.Instruction) {
+			q, ok := in.(*ssa.BinOp)
+			if !ok || q.Op != token.QUO {
+				return
+			}
+			X, Y := pc.of(q.X, 0).subst(sub), pc.of(q.Y, 0).subst(sub)
+			if nk.eq(X.add(Y.mul(pc.leafPoly(q)), -1)) {
+				rem = true
+			}
+		})
+		if !rem {
+			return false
+		}
+	}
+	return true
 }
